@@ -507,6 +507,45 @@ func (g *vgen) scenarioCases(t *testing.T) {
 	}
 }
 
+// re-observation while the node's head is 0 ("no block number available"), then again once it has moved
+func (g *vgen) zeroHeadCases(t *testing.T) {
+	for i, wait := range []bool{false, true} {
+		if g.stuck >= 3 {
+			break
+		}
+		c := &vCase{t: t, g: g, id: fmt.Sprintf("z%d", i), chain: vaa.ChainIDBSC, wait: wait}
+		g.r.Read(c.contract[:])
+		c.lat = 0
+		if c.startLine(false) {
+			for _, lat := range []uint64{0, 1, 7} {
+				if c.dead() {
+					break
+				}
+				if lat != 0 {
+					c.opHead(lat, 0, false, g.goodAnswer)
+				}
+				ro := g.reobs(c, nil, false, false, 0)
+				for ro.rc.kind != "r" || len(ro.rc.logs) == 0 {
+					ro = g.reobs(c, nil, false, false, 0)
+				}
+				bn := uint64(0)
+				ro.rc.kind, ro.rc.status, ro.rc.bn, ro.bnErr, ro.bumpTo = "r", 1, &bn, false, 0
+				ro.bt = vBtAns{kind: "ok", t: 1700000001}
+				for _, l := range ro.rc.logs {
+					if l != nil {
+						l.BlockNumber = 0
+					}
+				}
+				c.opReobs(ro, g.goodAnswer)
+			}
+		}
+		if c.stuck != "" {
+			g.stuck++
+		}
+		c.stop()
+	}
+}
+
 // ------------------------------------------------------------------------------------------------
 // direct layer: scripted Connector
 
@@ -768,9 +807,9 @@ func TestVerifEvm(t *testing.T) {
 	g := &vgen{r: rand.New(rand.NewSource(seed)), w: bufio.NewWriterSize(f, 1<<20)}
 	defer g.w.Flush()
 
-	nWs, nDirect := 160, 1500
+	nWs, nDirect := 400, 2500
 	if tier == "thorough" {
-		nWs, nDirect = 2500, 20000
+		nWs, nDirect = 4000, 30000
 	}
 	if v := os.Getenv("VERIF_EVM_WS"); v != "" {
 		nWs, _ = strconv.Atoi(v)
@@ -779,13 +818,10 @@ func TestVerifEvm(t *testing.T) {
 	g.w.Flush()
 	if os.Getenv("VERIF_EVM_NOSC") == "" {
 		g.scenarioCases(t)
+		g.zeroHeadCases(t)
 	}
 	for i := 0; i < nWs && g.stuck < 3; i++ {
 		g.wsCase(t, i)
-	}
-	if os.Getenv("VERIF_EVM_DUMP") != "" {
-		buf := make([]byte, 64<<20)
-		os.WriteFile(os.Getenv("VERIF_EVM_DUMP"), buf[:runtime.Stack(buf, true)], 0644)
 	}
 	t.Logf("evm harness: %d lines, stuck cases %d, goroutines at end %d, poller flushes %d (%d stack dumps)", g.lines, g.stuck, runtime.NumGoroutine(), vFlushes, vDumps)
 }
